@@ -21,18 +21,24 @@ ASSUMPTIONS = ["user discipline: an edit inside the closure of an explicitly ver
                "fork()ed lifetimes share one hash seed (hash-seed variation is C03's subject)"]
 COMPONENTS = {"real": ["twosigma.memento (all)", "CPython import system / exec of cells", "filesystem store on tmpfs", "process lifetimes via fork"],
               "stub": ["generated user program", "uuid4, clock"]}
-REACH = ["programs_with_mutual_recursion", "edits_cross_process", "edits_in_process", "restarts", "served_from_store", "ude_raised", "via:partial",
+REACH = ["histories_without_explicit_version_bumps", "programs_with_mutual_recursion", "edits_cross_process", "edits_in_process", "restarts", "served_from_store", "ude_raised", "via:partial",
          "via:ignore_result", "delivery:inproc-mutate", "delivery:inproc-module"]
 
 
 def cases(tier, seed):
-    return [evo.gen_history(core.run_seed(seed, PROP, i)) for i in range(NCASES[tier])]
+    out = [evo.gen_history(core.run_seed(seed, PROP, i)) for i in range(NCASES[tier])]
+    # dependency reports must be exact at every state, whether or not the user bumped an explicit version: histories of
+    # in-process edits without the bump, with the reports compared after (almost) every edit and no calls
+    for i in range(NCASES[tier] // 3):
+        out.append(evo.gen_history(core.run_seed(seed, PROP + "-nodisc", i), inproc_only=True, discipline=False,
+                                   features={"p_explicit": 0.5, "p_hidden": 0.0, "p_alias": 0.4}))
+    return out
 
 
 def execute(case):
     viol, log, stats = evo.execute_history(case, {"c14"})
     dg = core.digest_of(log)
-    nontriv = any(s["op"] == "edit" for s in case["steps"]) and stats.get("calls", 0) > 0
+    nontriv = any(s["op"] == "edit" for s in case["steps"]) and (stats.get("calls", 0) > 0 or stats.get("deps_states", 0) > 1)
     return {"violations": viol, "digest": dg, "nontrivial": nontriv, "stats": stats, "steps": len(log), "key": dg,
             "sample": {"modules": case["prog"]["modules"], "nodes": [[n["name"], n["kind"], [c["to"] for c in n["calls"]]] for n in case["prog"]["nodes"]],
                        "steps": [s if s["op"] != "edit" else {"edit": s["edit"]["kind"], "delivery": s["delivery"]} for s in case["steps"][:10]]}}
